@@ -2,7 +2,8 @@ import ThriftVerif.Gen.FastLemmas
 /- helper lemmas about Gen.Fast for Props/C10:
    (1) FastRead never panics when the runtime's Skip is bounds-respecting (`fastReadTy_np`);
    (2) gopkg's Skip accepts whatever the strict untyped decoder `Wire.decW` accepts, consuming the same bytes
-       (`skipType_refines`). -/
+       (`skipType_refines`);
+   (3) the suggested two-line repair of gopkg's Skip (`Gopkg.skipTypeF`) satisfies the bounds hypothesis of (1). -/
 set_option maxRecDepth 4000
 namespace Gen.Fast
 open Wire Gen
@@ -768,6 +769,224 @@ theorem skipType_refines : ∀ (d : Nat) (t : TType) (bs : Bytes) (w : WVal) (r 
                   simp only [hl] at h
                   cases h
                   exact skip_list_case d ih 15 (Or.inr rfl) ec r0 et het n r' h4 hn xs r hl
+
+
+
+
+/-! ### the suggested repair of gopkg's Skip, and the proof that it satisfies `SkipBounded` -/
+namespace Gopkg
+
+/-- `typeToSize[uint8(t)]`: no negative index; bytes ≥ 0x80 have size 0 and end in "unknown data type" -/
+def typeToSizeF (t : Nat) : Nat :=
+  if t = 2 ∨ t = 3 then 1 else if t = 6 then 2 else if t = 8 then 4 else if t = 4 ∨ t = 10 then 8 else 0
+
+def structLoopF (rec : Nat → Bytes → FRes Nat) : Nat → Nat → Bytes → FRes Nat
+  | 0, _, _ => .err
+  | g+1, i, bs =>
+    if i ≥ bs.length then .err else
+    let ft := bs.getD i 0
+    let i := i + 1
+    if ft = 0 then .ok i else
+    let i := i + 2
+    if i ≥ bs.length then .err else do
+    let fi ← skipElem rec (typeToSizeF ft) ft (bs.drop i)
+    structLoopF rec g (i + fi) bs
+
+/-- `skipType` with (a) `typeToSize[uint8(t)]` and (b) `if p+i > e { return errBufferTooShort }` before the
+`return i, nil` of the MAP loop -/
+def skipTypeF : Nat → Nat → Bytes → FRes Nat
+  | 0, _, _ => .err
+  | d+1, t, bs =>
+    let n := typeToSizeF t
+    if 0 < n then (if n > bs.length then .err else .ok n)
+    else if t = 11 then FRes.ofOption (skipstr bs)
+    else if t = 13 then
+      if 6 > bs.length then .err else
+      let kt := bs.getD 0 0
+      let vt := bs.getD 1 0
+      let sz := u32 (bs.drop 2)
+      if sz ≥ maxSize then .err else
+      let ksz := typeToSizeF kt
+      let vsz := typeToSizeF vt
+      if 0 < ksz && 0 < vsz then
+        (if 6 + sz * (ksz + vsz) > bs.length then .err else .ok (6 + sz * (ksz + vsz)))
+      else do
+        let i ← mapLoop (skipElem (skipTypeF d) ksz kt) (skipElem (skipTypeF d) vsz vt) sz 6 bs
+        if i > bs.length then .err else .ok i
+    else if t = 14 ∨ t = 15 then
+      if 5 > bs.length then .err else
+      let vt := bs.getD 0 0
+      let sz := u32 (bs.drop 1)
+      if sz ≥ maxSize then .err else
+      let vsz := typeToSizeF vt
+      if 0 < vsz then (if 5 + sz * vsz > bs.length then .err else .ok (5 + sz * vsz))
+      else listLoop (skipElem (skipTypeF d) vsz vt) sz 5 bs
+    else if t = 12 then structLoopF (skipTypeF d) (bs.length + 1) 0 bs
+    else .err
+
+def skipF (t : Nat) (bs : Bytes) : FRes Nat :=
+  if bs.length = 0 then .err else skipTypeF 64 t bs
+
+end Gopkg
+
+/-- in-range answer or error, never a panic -/
+def Bounded (r : FRes Nat) (bs : Bytes) : Prop :=
+  match r with
+  | .ok l => l ≤ bs.length
+  | .err => True
+  | .panic _ => False
+
+theorem skipstr_bounded (bs : Bytes) : Bounded (FRes.ofOption (Gopkg.skipstr bs)) bs := by
+  unfold Gopkg.skipstr
+  split
+  · simp only []
+    split
+    · trivial
+    · split
+      · simp only [FRes.ofOption, Bounded]; omega
+      · trivial
+  · trivial
+
+theorem listLoop_bounded (elem : Bytes → FRes Nat) (he : ∀ bs, Bounded (elem bs) bs) :
+    ∀ (n i : Nat) (bs : Bytes), i ≤ bs.length → Bounded (Gopkg.listLoop elem n i bs) bs := by
+  intro n
+  induction n with
+  | zero => intro i bs hi; simpa [Gopkg.listLoop, Bounded] using hi
+  | succ n ih =>
+    intro i bs hi
+    simp only [Gopkg.listLoop]
+    split
+    · trivial
+    · have hb := he (bs.drop i)
+      cases hk : elem (bs.drop i) with
+      | panic w => rw [hk] at hb; exact hb.elim
+      | err => trivial
+      | ok k =>
+        rw [hk] at hb
+        simp only [Bounded, List.length_drop] at hb
+        simp only [bind]
+        exact ih (i + k) bs (by omega)
+
+theorem mapLoop_np (ke ve : Bytes → FRes Nat) (hk : ∀ bs, NoPanic (ke bs)) (hv : ∀ bs, NoPanic (ve bs)) :
+    ∀ (n i : Nat) (bs : Bytes), NoPanic (Gopkg.mapLoop ke ve n i bs) := by
+  intro n
+  induction n with
+  | zero => intro i bs; trivial
+  | succ n ih =>
+    intro i bs
+    simp only [Gopkg.mapLoop]
+    split
+    · trivial
+    · apply NoPanic.bind _ _ (hk _)
+      intro a _
+      split
+      · trivial
+      · apply NoPanic.bind _ _ (hv _)
+        intro b _
+        exact ih _ _
+
+theorem Bounded.noPanic {r : FRes Nat} {bs : Bytes} (h : Bounded r bs) : NoPanic r := by
+  cases r <;> first | trivial | exact h
+
+theorem skipElem_np (rec : Nat → Bytes → FRes Nat) (hr : ∀ t bs, NoPanic (rec t bs)) (sz t : Nat) (bs : Bytes) :
+    NoPanic (Gopkg.skipElem rec sz t bs) := by
+  unfold Gopkg.skipElem
+  split
+  · trivial
+  · split
+    · exact (skipstr_bounded bs).noPanic
+    · exact hr t bs
+
+theorem skipElem_bounded0 (rec : Nat → Bytes → FRes Nat) (hr : ∀ t bs, Bounded (rec t bs) bs) (t : Nat) (bs : Bytes) :
+    Bounded (Gopkg.skipElem rec 0 t bs) bs := by
+  unfold Gopkg.skipElem
+  simp only [Nat.lt_irrefl, if_false]
+  split
+  · exact skipstr_bounded bs
+  · exact hr t bs
+
+theorem structLoopF_bounded (rec : Nat → Bytes → FRes Nat) (hr : ∀ t bs, NoPanic (rec t bs)) :
+    ∀ (g i : Nat) (bs : Bytes), Bounded (Gopkg.structLoopF rec g i bs) bs := by
+  intro g
+  induction g with
+  | zero => intro i bs; trivial
+  | succ g ih =>
+    intro i bs
+    simp only [Gopkg.structLoopF]
+    split
+    · trivial
+    · rename_i hlt
+      split
+      · simp only [Bounded]; omega
+      · split
+        · trivial
+        · have hn := skipElem_np rec hr (Gopkg.typeToSizeF (bs.getD i 0)) (bs.getD i 0) (bs.drop (i + 1 + 2))
+          cases hk : Gopkg.skipElem rec (Gopkg.typeToSizeF (bs.getD i 0)) (bs.getD i 0) (bs.drop (i + 1 + 2)) with
+          | panic w => rw [hk] at hn; exact hn.elim
+          | err => trivial
+          | ok k => simp only [bind]; exact ih _ _
+
+theorem skipTypeF_bounded : ∀ (d t : Nat) (bs : Bytes), Bounded (Gopkg.skipTypeF d t bs) bs := by
+  intro d
+  induction d with
+  | zero => intro t bs; trivial
+  | succ d ih =>
+    intro t bs
+    have ihn : ∀ t bs, NoPanic (Gopkg.skipTypeF d t bs) := fun t bs => (ih t bs).noPanic
+    simp only [Gopkg.skipTypeF]
+    split
+    · split
+      · trivial
+      · simp only [Bounded]; omega
+    · split
+      · exact skipstr_bounded bs
+      · split
+        · -- MAP
+          split
+          · trivial
+          · split
+            · trivial
+            · split
+              · split
+                · trivial
+                · simp only [Bounded]; omega
+              · have hn := mapLoop_np _ _ (skipElem_np (Gopkg.skipTypeF d) ihn (Gopkg.typeToSizeF (bs.getD 0 0)) (bs.getD 0 0))
+                  (skipElem_np (Gopkg.skipTypeF d) ihn (Gopkg.typeToSizeF (bs.getD 1 0)) (bs.getD 1 0)) (Gopkg.u32 (bs.drop 2)) 6 bs
+                cases hk : Gopkg.mapLoop (Gopkg.skipElem (Gopkg.skipTypeF d) (Gopkg.typeToSizeF (bs.getD 0 0)) (bs.getD 0 0))
+                    (Gopkg.skipElem (Gopkg.skipTypeF d) (Gopkg.typeToSizeF (bs.getD 1 0)) (bs.getD 1 0)) (Gopkg.u32 (bs.drop 2)) 6 bs with
+                | panic w => rw [hk] at hn; exact hn.elim
+                | err => trivial
+                | ok k =>
+                  simp only [bind]
+                  split
+                  · trivial
+                  · simp only [Bounded]; omega
+        · split
+          · -- LIST / SET
+            split
+            · trivial
+            · split
+              · trivial
+              · split
+                · split
+                  · trivial
+                  · simp only [Bounded]; omega
+                · rename_i hlen _ hz
+                  have hz0 : Gopkg.typeToSizeF (bs.getD 0 0) = 0 := by omega
+                  rw [hz0]
+                  exact listLoop_bounded _ (skipElem_bounded0 (Gopkg.skipTypeF d) ih (bs.getD 0 0)) _ 5 bs (by omega)
+          · split
+            · exact structLoopF_bounded (Gopkg.skipTypeF d) ihn _ 0 bs
+            · trivial
+
+/-- the repaired Skip satisfies the hypothesis of `fast_read_no_panic` -/
+theorem skipF_bounded : SkipBounded Gopkg.skipF := by
+  intro t bs
+  show Bounded (Gopkg.skipF t bs) bs
+  unfold Gopkg.skipF
+  split
+  · trivial
+  · exact skipTypeF_bounded 64 t bs
 
 
 end Gen.Fast
